@@ -61,6 +61,12 @@ CHECKS = {
                      "prefix and every finite level in [1e-300,1e300] and that ROC is exactly 0 on a flat stream for levels symbolic over a seeded 96-value table. Known findings (ER, MFI, RSI(1) NaN; CCI residue) "
                      "are listed in known_findings.json and re-confirmed natively on every run.",
                 technique="symbolic execution of rustc MIR into z3 (zero-denominator feasibility, exact neutral values) + Kani/CBMC harnesses; native replay", design='4/C08'),
+    'C11': dict(text="Solver-decided: (R) every constructor executed from MIR with period arguments symbolic over the WHOLE usize range for the allocation-free indicators (EMA, RSI, ATR, MACD, PPO, KC; "
+                     "SlowStochastic's EMA period) and every tuple over 0..=4 (0..=8) for windowed ones: no compiler-inserted overflow/bounds assertion can fail, Err(InvalidParameter) iff some period is 0, "
+                     "period()/multiplier() return the arguments; Default::default() executed from MIR behaves as new(documented defaults) on a symbolic stream; (K) the same constructor contract "
+                     "bit-precisely for every usize tuple and every f64 multiplier (allocation-free) and every period tuple in 0..=16 (64) (windowed). Display text and accessors are compared natively on a sweep "
+                     "incl. 2^31, 2^32, 2^53+1, usize::MAX-1, usize::MAX (formatting is outside both engines).",
+                technique="symbolic execution of rustc MIR into z3 (integers with overflow assertions) + Kani/CBMC harnesses; native confirmation incl. Display", design='4/C11'),
 }
 NA = {
     'C19': "decided by rustc's type checker once and for all; there is no input, state or schedule for an SMT/SAT solver to quantify over",
